@@ -367,6 +367,20 @@ pub fn structural_probes() -> Vec<Probe> {
         let twin = format!("{PRELUDE}\nuse gc_arena::static_collect;\nfn need<'gc, T: Collect<'gc>>() {{}}\n{twin_items}\nfn main() {{}}\n");
         v.push(Probe { name: format!("static_collect_{}", v.len()), class: format!("static_collect-macro|{n}"), negative: neg, twin });
     }
+    // the root must be Collect: the arena releases every object before it drops the root, so the
+    // destructor of a root that is not Collect (a user Drop impl reading its Gc, a std Ref guard
+    // borrowed from a Gc<RefLock>) would run on freed objects
+    for (n, items, mk_arena) in [
+        ("Ref guard as the root of Arena::new", "", "let arena = Arena::<Rootable![std::cell::Ref<'_, i32>]>::new(|mc| Gc::new(mc, RefLock::new(7)).borrow()); drop(arena);"),
+        ("root with a destructor that reads its Gc", "struct Rt<'gc>(Gc<'gc, i32>);\nimpl<'gc> Drop for Rt<'gc> { fn drop(&mut self) { let _n: i32 = *self.0; } }", "let arena = Arena::<Rootable![Rt<'_>]>::new(|mc| Rt(Gc::new(mc, 7))); drop(arena);"),
+        ("Ref guard as the root of Arena::try_new", "", "let arena = Arena::<Rootable![std::cell::Ref<'_, i32>]>::try_new(|mc| Ok::<_, ()>(Gc::new(mc, RefLock::new(7)).borrow())); drop(arena);"),
+        ("Ref guard as the root after map_root", "", "let arena = mk().map_root::<Rootable![std::cell::Ref<'_, i32>]>(|_mc, root| root.v.borrow()); drop(arena);"),
+        ("Ref guard as the root after try_map_root", "", "let arena = mk().try_map_root::<Rootable![std::cell::Ref<'_, i32>], ()>(|_mc, root| Ok(root.v.borrow())); drop(arena);"),
+    ] {
+        let neg = format!("{PRELUDE}\n{items}\nfn main() {{ {mk_arena} }}\n");
+        let twin = format!("{PRELUDE}\nfn main() {{ let arena = mk().map_root::<Rootable![Gc<'_, RefLock<i32>>]>(|_mc, root| root.v); drop(arena); let a2 = Arena::<Rootable![Option<Gc<'_, i32>>]>::try_new(|mc| Ok::<_, ()>(Some(Gc::new(mc, 7)))); drop(a2); }}\n");
+        v.push(Probe { name: format!("root_not_collect_{}", v.len()), class: format!("root-is-not-Collect|{n}"), negative: neg, twin });
+    }
     // dyn_collect! is for trait objects only: for a sized type its impl would be satisfied circularly
     // (blanket DynCollect for sized Collect types) and make any type Collect
     for (n, items, ty) in [
@@ -456,7 +470,8 @@ pub fn run(tc: &Toolchain, probes: &[Probe], threads: usize) -> C12Report {
         fams.dedup();
         const EXPECTED: [&str; 16] = ["E0277", "E0521", "E0597", "E0716", "E0308", "E0310", "E0477", "E0478", "E0491", "E0373", "E0495", "E0759", "E0515", "lifetime-may-not-live-long-enough", "not-general-enough", "borrowed-data-escapes"];
         // the macro-operand probes are about unsafe operations: there E0133 is the expected family
-        let expected_here = |f: &str| if p.class.starts_with("unsafe-operation-in-macro-operand") { f == "E0133" } else { EXPECTED.contains(&f) };
+        // (a constructor that is not available for a root type shows up as E0599: unsatisfied trait bounds)
+        let expected_here = |f: &str| if p.class.starts_with("unsafe-operation-in-macro-operand") { f == "E0133" } else if p.class.starts_with("root-is-not-Collect") { f == "E0599" || f == "E0277" } else { EXPECTED.contains(&f) };
         if !fams.iter().any(|f| expected_here(f.as_str())) {
             rep.generator_faults.push(format!("{}: rejected, but with none of the expected diagnostic families: {fams:?}", p.class));
             continue;
